@@ -172,7 +172,7 @@ def run_tlc(spec, cfg, cases_path=None, env=None, workers=2, timeout=1200, xmx="
     """run one TLC process; returns TlcResult.  Tool failures raise ToolError."""
     meta = tempfile.mkdtemp(prefix=tag + "-", dir=os.path.join(WORK, "tlc"))
     e = dict(os.environ)
-    e["JAVA_TOOL_OPTIONS"] = "-Xss512m"
+    e["JAVA_TOOL_OPTIONS"] = "-Xss512m -Djava.io.tmpdir=" + meta      # TLC's scratch directory goes away with the run's metadir
     if cases_path:
         e["CASES"] = cases_path
     if env:
